@@ -61,6 +61,9 @@ type State struct {
 	path []string
 }
 
+// Path returns the op names that lead to this state.
+func (s *State) Path() []string { return s.path }
+
 func (s *State) Fail(kind, sig, format string, a ...any) {
 	*s.viol = append(*s.viol, Violation{Kind: kind, Sig: sig, Msg: fmt.Sprintf(format, a...), Path: append([]string{}, s.path...)})
 }
